@@ -65,6 +65,27 @@ func (vc *FuncVC) callFunction(st *State, fn *ssa.Function, bind []Value, args [
 
 func (vc *FuncVC) callFunctionC(st *State, fn *ssa.Function, c *ssa.CallCommon, bind []Value, args []Value, pos token.Pos, k func(*State, Value)) {
 	sp := vc.w.specFor(fn)
+	// a contract specialised to the closure passed as function argument takes precedence
+	for _, a := range args {
+		var cl *ClosureVal
+		switch x := a.(type) {
+		case *ClosureVal:
+			cl = x
+		case Term:
+			cl = vc.closures[x.S]
+		}
+		if cl == nil || cl.Fn.Parent() == nil {
+			continue
+		}
+		name := cl.Fn.String()
+		if fn.Pkg != nil && cl.Fn.Pkg == fn.Pkg {
+			name = strings.TrimPrefix(name, fn.Pkg.Pkg.Path()+".")
+		}
+		if ssp := vc.w.specs.Funcs[fn.String()+"$"+name]; ssp != nil {
+			sp = ssp
+			break
+		}
+	}
 	if h := vc.higherOrder(fn); h != nil && c != nil {
 		h(st, fn, c, args, pos, k)
 		return
@@ -204,7 +225,7 @@ func (vc *FuncVC) bindCallee(st, old *State, sp *FuncSpec, fn *ssa.Function, sig
 				}
 			}()
 			if cl, ok := args[i].(*ClosureVal); ok {
-				env.vars[name] = TV{T: vc.closureRef(st, cl), Go: t}
+				vc.bindClosureVars(env, st, cl)
 				return
 			}
 			if i == 0 && sp.Kind == "interface" && t != nil {
@@ -583,11 +604,15 @@ func (vc *FuncVC) execAppend(st *State, c *ssa.CallCommon, args []Value, pos tok
 		written := And(Eq(r, arr), Le(Add(off, SLen(s)), i), Lt(i, Add(off, newLen)))
 		copied := And(Not(fits), Eq(r, arr), Le(IntLit(0), i), Lt(i, SLen(s)))
 		same := Eq(Select(Select(nh, r), i), Select(Select(h, r), i))
-		st.assume(Term{fmt.Sprintf("(forall ((r!p Ref) (i!p Int)) (! (=> (and (not %s) (not %s)) %s) :pattern ((select (select %s r!p) i!p))))", written.S, copied.S, same.S, nh.S), SBool})
+		st.assume(Term{fmt.Sprintf("(forall ((r!p Ref) (i!p Int)) (! (=> (and (not %s) (not %s)) %s) :pattern ((select (select %s r!p) i!p)) :pattern ((select (select %s r!p) i!p))))", written.S, copied.S, same.S, nh.S, h.S), SBool})
 		// 2. on reallocation the old elements are copied
 		j := Term{"j!p", SInt}
 		cbody := Implies(And(Not(fits), Le(IntLit(0), j), Lt(j, SLen(s))), Eq(Select(Select(nh, arr), j), Select(Select(h, SArr(s)), Add(SOff(s), j))))
 		st.assume(Term{fmt.Sprintf("(forall ((j!p Int)) (! %s :pattern ((select (select %s %s) j!p))))", cbody.S, nh.S, arr.S), SBool})
+		// 2b. the same, triggered by the old element (so that facts about old elements reach the copy)
+		ko := Term{"k!p", SInt}
+		c2 := Implies(And(Not(fits), Le(SOff(s), ko), Lt(ko, Add(SOff(s), SLen(s)))), Eq(Select(Select(nh, arr), Sub(ko, SOff(s))), Select(Select(h, SArr(s)), ko)))
+		st.assume(Term{fmt.Sprintf("(forall ((k!p Int)) (! %s :pattern ((select (select %s %s) k!p))))", c2.S, h.S, SArr(s).S), SBool})
 		// 3. the new elements (indexed by the destination position, so that the pattern contains no arithmetic)
 		lo := Add(off, SLen(s))
 		k := Sub(i, lo)
@@ -596,6 +621,16 @@ func (vc *FuncVC) execAppend(st *State, c *ssa.CallCommon, args []Value, pos tok
 			src = mk(SInt, "sat", extra, k)
 		} else {
 			src = Select(Select(h, SArr(extra)), Add(SOff(extra), k))
+		}
+		if n.S == "1" {
+			// the common single-element append: a ground fact needs no instantiation
+			var src0 Term
+			if extra.Sort == SStr {
+				src0 = mk(SInt, "sat", extra, IntLit(0))
+			} else {
+				src0 = Select(Select(h, SArr(extra)), SOff(extra))
+			}
+			st.assume(Eq(Select(Select(nh, arr), lo), src0))
 		}
 		nbody := Implies(And(Le(lo, i), Lt(i, Add(lo, n))), Eq(Select(Select(nh, arr), i), src))
 		st.assume(Term{fmt.Sprintf("(forall ((i!p Int)) (! %s :pattern ((select (select %s %s) i!p))))", nbody.S, nh.S, arr.S), SBool})
